@@ -512,6 +512,12 @@ func init() {
 		}
 		return unhandled(vc, st, fn, args, rt)
 	}
+	m["(time.Time).UnixNano"] = func(vc *VC, fx *FuncCtx, st *State, fn *ssa.Function, args []Val, rt types.Type, instr ssa.Instruction) Val {
+		if ns, ok := nanos(args[0]); ok {
+			return Sub(ns, IntBig(unixEpochNanos))
+		}
+		return unhandled(vc, st, fn, args, rt)
+	}
 	m["time.Until"] = func(vc *VC, fx *FuncCtx, st *State, fn *ssa.Function, args []Val, rt types.Type, instr ssa.Instruction) Val {
 		ns, ok := nanos(args[0])
 		if !ok {
